@@ -198,6 +198,13 @@ class NP(object):
         return NP.zeros(shape)
 
     @staticmethod
+    def full(shape, value, dtype=None, **kw):
+        shape = _shape(shape)
+        out = np.empty(shape, dtype=object)
+        out[...] = value if isinstance(value, Rat) else R(value)
+        return out
+
+    @staticmethod
     def zeros_like(a, **kw):
         return NP.zeros(np.shape(a))
 
@@ -316,6 +323,14 @@ class NP(object):
             return det(arr(a))
 
         @staticmethod
+        def svd(a, *x, **k):
+            """uninterpreted SVD: F = w . diag(s) . vh with symbolic factors keyed by F's normal form"""
+            a = arr(a)
+            key = abs(hash(tuple(vn.canon(v) for v in a.ravel()))) % (10 ** 10)
+            n = a.shape[0]
+            return (symarray("svd%d_w" % key, (n, n)), symarray("svd%d_s" % key, (n,)), symarray("svd%d_vh" % key, (n, n)))
+
+        @staticmethod
         def norm(a, *x, **k):
             a = arr(a)
             s = R(0)
@@ -428,6 +443,7 @@ class Interp(object):
         self.tolerant = tolerant
         self.generic_loops = generic_loops or {}
         self.skipped = []
+        self.envs = {}        # function name -> local environment of its last completed call
 
     # ---------------------------------------------------------------- calls
     def call(self, modalias, qual, *args, **kwargs):
@@ -450,6 +466,7 @@ class Interp(object):
             return None
         finally:
             self.depth -= 1
+            self.envs[fn.name] = env
 
     def bind(self, m, fn, args, kwargs):
         a = fn.args
@@ -591,7 +608,17 @@ class Interp(object):
             raise _Break()
         if isinstance(s, ast.Continue):
             raise _Continue()
-        if isinstance(s, (ast.Import, ast.ImportFrom)):
+        if isinstance(s, ast.ImportFrom):
+            if (s.module or "") in ("math", "numpy", "numpy.linalg"):
+                for a in s.names:
+                    src_ns = NP.linalg if s.module == "numpy.linalg" else NP
+                    if hasattr(src_ns, a.name):
+                        env[a.asname or a.name] = getattr(src_ns, a.name)
+            return
+        if isinstance(s, ast.Import):
+            for a in s.names:
+                if a.name in ("math", "numpy"):
+                    env[a.asname or a.name] = NP
             return
         if isinstance(s, ast.Raise):
             raise Unsupported("reached 'raise' at %s:%d" % (m.rel, s.lineno))
@@ -924,6 +951,13 @@ class Interp(object):
                 return ("method", base, a)
         raise Unsupported("attribute %s on %s at %s:%s" % (a, type(base).__name__, m.rel, e.lineno))
 
+    def attribute_of(self, m, obj, name):
+        """value of obj.<name> (runs the property if it is one)"""
+        node = ast.Attribute(value=ast.Name(id="__obj", ctx=ast.Load()), attr=name, ctx=ast.Load())
+        ast.fix_missing_locations(node)
+        node.lineno = 0
+        return self.attribute(m, node, {"__obj": obj})
+
     def global_dotted(self, m, d):
         parts = d.split(".")
         head = parts[0]
@@ -985,6 +1019,8 @@ class Interp(object):
                             return getattr(NP, a.name)
                         if src == "math":
                             return getattr(NP, a.name)
+                        if (n.module or "") == "numpy.linalg":
+                            return getattr(NP.linalg, a.name)
                         if (n.module or "").startswith("numba"):
                             return range if a.name == "prange" else ("ignored", a.name)
             if isinstance(n, ast.Import):
@@ -1003,6 +1039,22 @@ class Interp(object):
         raise Unsupported("unknown name %s in %s" % (name, m.rel))
 
     def callexpr(self, m, e, env):
+        if isinstance(e.func, ast.Name) and e.func.id == "isinstance" and len(e.args) == 2 and e.func.id not in env:
+            v = self.expr(m, e.args[0], env)
+            tnames = [n.id for n in ast.walk(e.args[1]) if isinstance(n, ast.Name)]
+            res = False
+            for t in tnames:
+                if t == "str":
+                    res = res or isinstance(v, str)
+                elif t == "int":
+                    res = res or (isinstance(v, int) and not isinstance(v, bool))
+                elif t == "float":
+                    res = res or isinstance(v, (float, Rat))
+                elif t in ("list", "tuple", "dict"):
+                    res = res or isinstance(v, {"list": list, "tuple": tuple, "dict": dict}[t])
+                elif t == "ndarray":
+                    res = res or isinstance(v, np.ndarray)
+            return res
         f = self.expr(m, e.func, env)
         args = []
         for a in e.args:
@@ -1186,7 +1238,7 @@ def _isinstance(x, t):
 
 
 def _ci(v):
-    if v is None or isinstance(v, slice):
+    if v is None or isinstance(v, slice) or v is Ellipsis:
         return v
     c = concrete(v)
     if c is None:
